@@ -80,6 +80,11 @@ def drive_random(cs, scn, rec, seed, nsteps, modes, genstep_frac=0.3, reset_frac
         rec.envs[e].action_space.seed(seed + e)
     hosts = [tuple(h) for h in cs["hosts"]]
     counter = 0
+    first_draws = {}          # record mode: first recorded draw of every episode, per environment
+    fresh = {e: True for e in eids}
+    if record_draws:
+        for e in eids:
+            rec.reset(e, seed=seed + e)      # the Gymnasium way of seeding, once; later resets are plain
     for t in range(nsteps):
         j = rng.randrange(len(eids))
         e = eids[j]
@@ -124,8 +129,14 @@ def drive_random(cs, scn, rec, seed, nsteps, modes, genstep_frac=0.3, reset_frac
         else:
             sp = spec_for_env(j, counter)
             if rng.random() < genstep_frac:
-                rec.genstep(e, None, sp, u)
+                gev, _ = rec.genstep(e, None, sp, u)
+                if record_draws and gev.get("ev") == "genstep" and gev["ndraw"] > 0 and fresh.get(e):
+                    first_draws.setdefault(e, []).append(gev["u"])
+                    fresh[e] = False
             ev = rec.step(e, sp, u)
+        if record_draws and ev.get("ev") == "step" and ev["ndraw"] > 0 and fresh.get(e):
+            first_draws.setdefault(e, []).append(ev["u"])
+            fresh[e] = False
         if rng.random() < 0.05:
             rec.goal(e, None)
         if extras and rng.random() < 0.02:
@@ -134,8 +145,13 @@ def drive_random(cs, scn, rec, seed, nsteps, modes, genstep_frac=0.3, reset_frac
             if readable:
                 rec.readable_state(e, cs)
                 rec.readable_obs(e, cs, env.last_obs.numpy_flat() if env.flat_obs else env.last_obs.numpy())
-        if rng.random() < reset_frac or (ev.get("ev") == "step" and (ev["term"] and rng.random() < 0.5)):
+        if rng.random() < (0.05 if record_draws else reset_frac) \
+                or (ev.get("ev") == "step" and (ev["term"] and rng.random() < 0.5)):
             rec.reset(e)
+            fresh[e] = True
+    if record_draws:
+        for e, us in first_draws.items():
+            rec.emit(dict(ev="freq", env=e, episodes=len(us), distinct_first_draws=len(set(us))))
     return dict(steps=nsteps)
 
 
